@@ -97,6 +97,21 @@ func VC11_Exhaustion() {
 	vAssert(err == nil, "C11.exhaustion.spurious")
 }
 
+// identifiers stay unique when the 32-bit allocation counter is anywhere (in particular about to wrap)
+func VC11_Wrap() {
+	m := newPathIDManager()
+	p1, p2 := c11PathShape(0), c11PathShape(1)
+	id1, err := m.addPath(p1)
+	vAssert(err == nil, "C11.wrap.first")
+	m.last = ndU32() // wherever the counter has got to since
+	id2, err := m.addPath(p2)
+	vReach("wrap")
+	vAssert(err == nil, "C11.wrap.second")
+	vAssert(id1 != id2, "C11.wrap.unique")
+	id1b, _ := m.addPath(p1)
+	vAssert(id1b == id1, "C11.wrap.stable")
+}
+
 type c11Client struct {
 	adds, removes []uint32 // path identifiers seen
 	addPfx        []*bnet.Prefix
